@@ -279,6 +279,9 @@ def step (st : State) (m : Mon) (op res : List String) : Mon × Option (Option S
       | none => (m, none)
       | some o =>
         if o.kind != opn then (m, none)               -- a call of another kind: answered CKR_OPERATION_NOT_INITIALIZED, the running operation is untouched (C12)
+        -- a single-part call on an operation that already absorbed C_*Update data is outside what PKCS#11 allows the application to do ("C_Encrypt cannot be used to
+        -- terminate a multi-part operation"); the token accepts it and forgets the buffered bytes; no property speaks about it: the operation is not followed any further
+        else if !o.inp.isEmpty || !o.out.isEmpty then (m.drop h, none)
         else if rv == 0x150 then (m, none)
         else if rv != 0 && o.mech == 0x1086 then (m.drop h, none)      -- CTR: the token refuses input that would wrap a narrow counter; the reference has no such notion
         else if rv != 0 then (m.drop h, if opn == "dec" then (finish { o with inp := o.inp ++ hexArg mt } none).2 else none)
